@@ -6,7 +6,8 @@ import pathlib
 V = pathlib.Path(__file__).resolve().parent.parent
 props = {p.stem: json.loads(p.read_text()) for p in sorted((V / "harness" / "props.d").glob("C*.json"))}
 texts = {p.stem: json.loads(p.read_text()) for p in sorted((V / "tools" / "manifest.d").glob("C*.json"))}
-props = {k: v for k, v in props.items() if k in texts and v.get("claimed", True)}
+accepted = set(json.loads((V / "tools" / "accepted.json").read_text()))  # checks the coordinator has reviewed
+props = {k: v for k, v in props.items() if k in texts and k in accepted}
 all_ids = [json.loads(l)["id"] for l in (V / "properties.jsonl").read_text().splitlines() if l.strip()]
 BASE = ("cd /repo && /venv/bin/python -m pytest -ra -q -p no:cacheprovider --timeout=900 "
         "--continue-on-collection-errors")
